@@ -46,6 +46,7 @@ Definition F32Ops : Ops float := {|
 (* width selector handed in by the harness: false = f64, true = f32 *)
 Definition ops (w32 : bool) : Ops float := if w32 then F32Ops else FOps.
 Definition epsw (w32 : bool) : float := if w32 then 0x1p-23%float else 0x1p-52%float.
+Definition minposw (w32 : bool) : float := if w32 then 0x1p-126%float else 0x1p-1022%float.
 
 Definition fsignbit (x : float) : bool :=
   match Prim2SF x with
@@ -128,7 +129,7 @@ Definition corr_qr_solve (w32 : bool) (m n bn : N) (A B : rowsF) (tol scale : fl
 Definition corr_svd (w32 : bool) (m n r : N) (A : rowsF) (tol scale : float) (eU : rowsF) (es : list float) (eV : rowsF)
   : bool :=
   let O := ops w32 in
-  match svd_mut O (epsw w32) fcopysign (nn m) (nn n) (mxF A) with
+  match svd_mut O (epsw w32) fcopysign (minposw w32) (nn m) (nn n) (mxF A) with
   | None => false
   | Some st =>
       eq_vec_abs tol scale (nn n) st.(sw) es &&
@@ -139,7 +140,7 @@ Definition corr_svd (w32 : bool) (m n r : N) (A : rowsF) (tol scale : float) (eU
   end.
 (* implementation said "no convergence" *)
 Definition corr_svd_none (w32 : bool) (m n : N) (A : rowsF) : bool :=
-  match svd_mut (ops w32) (epsw w32) fcopysign (nn m) (nn n) (mxF A) with None => true | Some _ => false end.
+  match svd_mut (ops w32) (epsw w32) fcopysign (minposw w32) (nn m) (nn n) (mxF A) with None => true | Some _ => false end.
 (* SVD::solve run on the implementation's own factors (exact) *)
 Definition corr_svd_solve (w32 : bool) (m n p : N) (U : rowsF) (s : list float) (V B : rowsF) (e : rowsF) : bool :=
   let O := ops w32 in
